@@ -254,8 +254,8 @@ def surely_compatible(c, s, flavour, skey):
                 return False, "no ecdsa sha256"
             if "sha1" not in eff(c, "ecdsaSigHashes"):
                 return False, "cert signature alg (ecdsa-sha1) not advertised"
-            if "secp256r1" not in eff(c, "eccCurves"):
-                return False, "cert curve not advertised"
+            # (TLS 1.3: supported_groups says nothing about certificate
+            # curves, signature_algorithms does - RFC 8446 4.2.7 / 4.2.3)
         return True, "tls13"
     # <= TLS 1.2
     if v == (3, 0):
